@@ -580,6 +580,11 @@ func (ex *Exec) instr(fr *Frame, b *ssa.BasicBlock, in ssa.Instruction, st *Stat
 		if isLocalCell(x) {
 			st.locals[x] = ex.zeroVal(elem)
 			fr.regs[x] = PtrV{Ty: x.Type(), Kind: rootLocal, Alloc: x, RootTy: elem}
+		} else if arr, ok := under(elem).(*types.Array); ok {
+			// a heap array is an element-heap object, so that slices of it alias it
+			n := IntLit(arr.Len())
+			sl := ex.newArray(arr.Elem(), n, n, st)
+			fr.regs[x] = PtrV{Ty: x.Type(), Kind: rootRef, Ref: SlArr(sl), RootTy: elem}
 		} else {
 			r := ex.allocRef("new", st)
 			if ex.track != nil {
